@@ -93,6 +93,24 @@ CLAIMS['C04'] = dict(
           "row's sub-sequence = the stated (clipped) slice, header entries unique."),
     note="Canonical pool is the TLA+ pool of C10, not the tool's; mass ties excluded by construction.",
     technique="TLC validation of recorded outputs against the TLA+ canonical pool and limits", ref='6 C04')
+CLAIMS['C08'] = dict(
+    text=("Peptides.tla: NovelOrfTx = digest (with M-removed start peptides, W>F images when requested) of the translation from "
+          "every ATG of the three frames of each selected transcript to the next stop or the transcript end, minus the canonical "
+          "pool. The harness selects transcripts by the documented options (coding only with --coding-novel-orf; biotype "
+          "inclusion/exclusion lists incl. the packaged default; not in the proteome; min-tx-length); TLC (AltOracle) requires "
+          "the FASTA of the real callNovelORF to equal that set exactly and every ORF FASTA entry to be the ATG-initiated "
+          "translation at its listed coordinates; ORF ids used in peptide headers must be listed."),
+    note=("'lists exactly the ORFs' is checked as used-subset-of-listed plus correctness of every listed entry: the tool also lists "
+          "ORFs all of whose peptides were filtered out, which I do not count as a violation."),
+    technique="TLA+ definitional oracle evaluated by TLC per recorded input (equality both directions)", ref='6 C08')
+CLAIMS['C09'] = dict(
+    text=("Peptides.tla: AltTransTx = peptides of the annotated ORF (annotated Sec read as U) that exist only through translation "
+          "stopping at an annotated Sec codon and/or W>F substitution of any non-empty subset of tryptophans, minus canonical pool, "
+          "within limits. TLC (AltOracle) requires the FASTA of the real callAltTranslation to equal it for random coding "
+          "references (0-2 Sec sites, NF tags, both strands) x flags x cleavage settings; every header must name a SECT/W2F event."),
+    note=("Known finding: SECT peptides of mRNA_end_NF selenoproteins whose Sec codon lies in the open-ended last node are not "
+          "reported by the tool."),
+    technique="TLA+ definitional oracle evaluated by TLC per recorded input (equality both directions)", ref='6 C09')
 PENDING = "not claimed in this revision: check not built yet (work in progress, see DESIGN.md section 12)"
 NA = {}
 
